@@ -113,6 +113,38 @@ def battery(fqe, seed, tier):
             ev = wn.time_evolve(0.3, ham)
             for key in sorted(ev.sectors()):
                 out[f"diag-evolve:{tag}:{norb}:{key}"] = enc(ev.get_coeff(key))
+    # Sz-mixing wavefunctions (all Sz sectors of one N, odd and even N) under one-body spin-orbital operators with a
+    # single non-zero column - alpha and beta columns - (the single-column kernels of the data-set class), the orbital
+    # rotation that is made of such operators, and the quadratic spin-mixing evolution
+    for norb, nel in ([(3, 3), (3, 1), (4, 3), (3, 2)] if quick else [(3, 3), (3, 1), (4, 3), (3, 2), (4, 5), (4, 4), (5, 3)]):
+        w = fqe.get_number_conserving_wavefunction(nel, norb)
+        U.random_fill(w, rng, zero_p=0.0)
+        nrs = numpy.random.RandomState(rng.randrange(2**31))
+        for col in range(2 * norb):
+            g1 = numpy.zeros((2 * norb, 2 * norb), dtype=numpy.complex128)
+            g1[:, col] = nrs.randint(-2, 3, 2 * norb) + 1j * nrs.randint(-2, 3, 2 * norb)
+            try:
+                res = w.apply(fqe.get_gso_hamiltonian((g1,)))
+                for key in sorted(res.sectors()):
+                    out[f"sb-column:{norb}:{nel}:{col}:{key}"] = enc(res.get_coeff(key))
+            except Exception as exc:
+                out[f"sb-column:{norb}:{nel}:{col}"] = {"raise": type(exc).__name__}
+        a = nrs.standard_normal((2 * norb, 2 * norb)) + 1j * nrs.standard_normal((2 * norb, 2 * norb))
+        q, _ = numpy.linalg.qr(a)
+        try:
+            _, _, _, t = copy.deepcopy(w).transform(q.copy())
+            for key in sorted(t.sectors()):
+                out[f"sb-transform:{norb}:{nel}:{key}"] = enc(t.get_coeff(key))
+        except Exception as exc:
+            out[f"sb-transform:{norb}:{nel}"] = {"raise": type(exc).__name__}
+        try:
+            wn = copy.deepcopy(w)
+            wn.normalize()
+            ev = wn.time_evolve(0.3, fqe.get_gso_hamiltonian(((a + a.conj().T) / 4.0,)))
+            for key in sorted(ev.sectors()):
+                out[f"sb-evolve:{norb}:{nel}:{key}"] = enc(ev.get_coeff(key))
+        except Exception as exc:
+            out[f"sb-evolve:{norb}:{nel}"] = {"raise": type(exc).__name__}
     # apply / evolve / rdm / cirq on random small cases
     ncases = 40 if quick else 400
     for case in range(ncases + (8 if quick else 40)):
